@@ -980,7 +980,7 @@ impl Property for C08 {
         512
     }
     fn cases(&self, tier: Tier) -> u64 {
-        tier.pick(6_000_000, 120_000_000)
+        tier.pick(6_000_000, 400_000_000)
     }
     fn run_tape(&self, tape: &[u8], ctx: &mut Ctx) -> Result<(), Failure> {
         let mut t = Tape::new(tape);
